@@ -6,6 +6,7 @@ import Driver.C05
 import Driver.C10
 import Driver.C15
 import Driver.C09
+import Driver.C17
 /-
   Line-protocol driver: one operation per input line, one canonical output line per operation.
   Imports `Model/` only (no Mathlib, no proofs) so that it links as a `lean_exe`.
@@ -22,7 +23,8 @@ structure DState where
 def handlers : List Handler := [
   Driver.C04.handle,
   Driver.C15.handle,
-  Driver.C09.handle
+  Driver.C09.handle,
+  Driver.C17.handle
 ]
 
 def step (st : DState) (line : String) : DState × String :=
